@@ -119,7 +119,7 @@ class C05(Prop):
         shutil.rmtree(snapdir, ignore_errors=True)
         rc, out, base = run({"BB_VALUE": "v0", "BB_GONE": "1"})
         fails, cells = [], 0
-        if rc != 0 or set(base) != {"m_test.snap", "TestStand_1.snap"} or b"[TestGone - 1]" not in base.get("m_test.snap", b""):
+        if rc != 0 or {f_ for f_ in base if ".snap" in f_} != {"m_test.snap", "TestStand_1.snap"} or b"[TestGone - 1]" not in base.get("m_test.snap", b""):
             return [{"msg": "black box: the recording run did not create the expected files: rc=%s files=%s" % (rc, sorted(base))}], {}
         upds = [None, "true", "clean", "false", "1", "TRUE", "", "yes"]
         for ci in (False, True):
